@@ -6,7 +6,7 @@ TB = ("Trusted: Coq 8.16.1 kernel (no axioms: every property theorem is closed u
       "Gallina model tied to /repo by the correspondence check run on every invocation (generator quality bounds it), "
       "ExtrOcamlBasic extraction + OCaml drivers / coqc vm_compute evaluation, the Rust harness and python generators.")
 CLAIMS = {
- "C01": ("Unbounded theorems C01_load_layout / C01_store_layout: the statement-by-statement model of ops.rs places every field bit at the documented physical position for all orders, carriers, buffer lengths and in-bounds ranges; tied to /repo by running extracted model and real ops on an exhaustive geometry each run; DedupCast table translated from source and its adequacy re-proved.",
+ "C01": ("Unbounded theorems C01_load_layout / C01_store_layout: the statement-by-statement model of ops.rs places every field bit at the documented physical position for all orders, carriers, buffer lengths and in-bounds ranges; tied to /repo by running extracted model and real ops on an exhaustive geometry each run; DedupCast table translated from source and its adequacy re-proved; plus a generated-level phase: compiled field sets with every (byte order, bit order) choice at object and global level and whole/partial-byte sizes, every getter/setter on random bytes vs Layout.v on the DECLARED orders (the generator's choice of load/store function and byte-order type parameter).",
          "64-bit host only exercised (16/32-bit DedupCast rows proved, not run). " + TB, "5 C01"),
  "C02": ("Theorems C02_isolation, C02_load_local, C02_roundtrip_unsigned, C02_roundtrip_signed_full, C02_setter_sequences (induction over any list of disjoint setter calls) over the ops.rs model; the signed-narrow clause is refuted by C02_signed_narrow_refuted (genuine defect D1, known finding) with C02_roundtrip_signed_narrow_partial as the strongest true statement; tie = exhaustive-geometry correspondence + an implementation-only round-trip/isolation oracle + generated level: sequences of setter calls on COMPILED generated field sets (every set-bit outside the declared range unchanged by physical position, disjoint fields read as before, read-back, bytes = FieldSetGen.setter_call on the real MIR).",
          "The generated-level phase samples definitions and sequences (boundary-biased), it is not exhaustive. " + TB, "5 C02"),
@@ -15,7 +15,7 @@ CLAIMS = {
          "The compiler's async lowering is modelled as 'Pending any finite number of times at each await' and tied only by the correspondence; the ref-reset clause is covered with C08. " + TB, "5 C05"),
  "C09": ("Theorems C09_dispatch_none/in/out/inout and C09_async_equiv over the transcribed command.rs for all oracles, closures, sizes and schedules; tie = exhaustive scripted histories over the four shapes x sizes x error/Pending patterns vs the extracted model. Generator clause (CmdShape.v): C09_unit_iff_no_fields, C09_generated_dispatch (composition with the four proven bodies: exactly one call; declared size and ceil(size/8) bytes in a direction with fields, (0, empty) in one without), C09_transferred_sizes, C09_ref_takes_target_shape; tie = command-centred definitions through the real generator: accessor type parameters from the token stream and dispatch_command arguments of the compiled accessor vs CmdShape.v on the real MIR and the property's wording.",
          "Async lowering modelled as arbitrary finite Pending counts. CmdShape.v is a hand transcription of get_method's command arm. " + TB, "5 C09"),
- "C10": ("Theorems C10_passthrough, C10_write_all(+meaning), C10_read_exact(+meaning), C10_async_equiv, C10_trait_equiv (incl. termination by fuel lemma) over the transcribed buffer.rs and the embedded-io provided methods; tie = every outcome sequence over {accept 1..n, 0, Err} at the bound x entry points (inherent / trait / async) vs the extracted model.",
+ "C10": ("Theorems C10_passthrough, C10_write_all(+meaning), C10_read_exact(+meaning), C10_async_equiv, C10_trait_equiv (incl. termination by fuel lemma) over the transcribed buffer.rs and the embedded-io provided methods; tie = every outcome sequence over {accept 1..n, 0, Err} at the bound x entry points (inherent / trait / async) vs the extracted model, plus long requests (255..70000 bytes, thorough ..200000) through every entry point with the interface taking everything, all but one byte, 65535, half or a random count per call.",
          "embedded-io 0.6.1 provided methods transcribed from the registry source. " + TB, "5 C10"),
  "C06": ("C06_emitted_sets_are_the_declared_ones, C06_getter_reads_declared_range / C06_setter_writes_declared_range (composition of the emission model with the C01 layout theorems), C06_carrier_minimal, C06_getter_iff_readable / setter_iff_writable, C06_effective_byte_order, C06_bytes_roundtrip / C06_binops_act_on_all_bits / C06_not_acts_on_all_bits (byte array in and out, &,|,^,! on every bit), C06_ops_choice_from_source (the (byte order, bit order) -> ops function table TRANSLATED from field_set_transform.rs on every build); tie = every field-set fact of the real token stream vs FieldSetGen.v on the real MIR in all four syntaxes + an abstract-definition oracle for effective orders/access (finds D5, known finding) + compiled field sets driven with bytes vs the Coq reference interpreter.",
          "From/Into/bit-operator bodies are constant emitted text, modelled as such (fs_from_bytes .. fs_not) and compared with the compiled field sets at L2. Name normalisation is modelled in C14 (Case.v). " + TB, "5 C06"),
@@ -32,9 +32,9 @@ CLAIMS = {
  "C04": ("C04_address_chain_exact / C04_address_exact (induction over any chain of nested block accessors: the emitted checked arithmetic, if it does not panic, equals sum(offset + index*stride) in the integers, negative values included), C04_index_guard(+chain), C04_ref_address, C04_read_all_visits, C04_read_all_reports_bus_address_nonroot/_root (reported address = bus address; D2 was repaired in /repo); tie = accepted random trees compiled with a recording mock: every valid index tuple and the first invalid index per level called in a debug build; bus address vs the Coq model on the real MIR and vs the property's formula from the abstract definition; read_all_registers on every block instance.",
          "Block refs are inside since D9 was repaired in /repo (7e1bb11): their accessors and every path through them are generated, modelled (Addr04.block_children) and compiled; index-as-IT wrap and IT overflow are C13's (proved absent since D3/D3b were repaired). " + TB, "5 C04"),
 
- "C08": ("C08_accept_iff, C08_bytes, C08_no_bit_at_or_above_size, C08_out_of_range_bit_uses_C01_numbering (the rejection rule is stated with C01's setbit), C08_never_panics for EVERY size 1..128 by bit-level reasoning, plus device-level C08_new_constructor, C08_ref_override_own_constructor, C08_ref_without_override_uses_new over the transcribed reset_values_converted and the emitter's constructors; tie = per size x orders x forms x boundary values: real generator vs Coq model on the real MIR vs a transcription of the property text (L1 constructor literals) and compiled drivers' write(|_| ()) wire bytes (L2).",
+ "C08": ("C08_accept_iff, C08_bytes, C08_no_bit_at_or_above_size, C08_out_of_range_bit_uses_C01_numbering (the rejection rule is stated with C01's setbit), C08_never_panics for EVERY size 1..128 by bit-level reasoning, plus device-level C08_new_constructor, C08_ref_override_own_constructor, C08_ref_without_override_uses_new over the transcribed reset_values_converted and the emitter's constructors; tie = per size x orders x forms x boundary values: real generator vs Coq model on the real MIR vs a transcription of the property text (L1 constructor literals) and compiled drivers' write(|_| ()) / write_async wire bytes (L2), including same-named registers under mutually exclusive cfgs with different reset values in both declaration orders.",
          "bitvec's Lsb0/Msb0 views are modelled by their documented numbering. " + TB, "5 C08"),
- "C12": ("C12_claimed_eq_instances (the pass's expansion = the spec's instance list for every tree incl. block repeats, nesting, refs, block refs), C12_pairwise_complete, C12_reject_iff_collision (full since the repair of D10), C12_kinds_never_collide, C12_error_names_both; tie = near-colliding trees (exhaustive pair family + random) through the real generator vs model and spec on the real MIR: verdict, both names with indices, address.",
+ "C12": ("C12_claimed_eq_instances (the pass's expansion = the spec's instance list for every tree incl. block repeats, nesting, refs, block refs), C12_pairwise_complete, C12_reject_iff_collision (full since the repair of D10), C12_kinds_never_collide, C12_error_names_both; tie = near-colliding trees (exhaustive pair family + random) through the real generator vs model and spec on the real MIR: verdict, both names with indices, address; plus a flag family (two plain objects x {flag absent, explicit false, explicit true} x same/other address in all four syntaxes) judged by an oracle on the ABSTRACT definition, so that a front end misreading the flag is seen.",
          "Fuel-bounded expansion: a block named like the device loops forever in the real pass (D11b, noted). " + TB, "5 C12"),
  "C13": ("C13_accepted_all_fit and C13_accepted_no_overflow_full for EVERY instance of EVERY accepted tree (no class excluded since the min/max walk was repaired in /repo de9122d + 22a2001: block repeats, block refs, refs keeping their target's address or repeat, i128 arithmetic), C13_walk_exact (the walk's (min, max) is exactly the min and max of 0 and the points of its filter), C13_walk_bounds_instances, C13_internal_type_covers(+_instances), C13_error_states_bound, C13_unfit_walk_range_rejected, C13_missing_type_rejected, C13_address_type_bounds_from_source (Integer::min_value / max_value TRANSLATED from mir/mod.rs on every build); C13_accepted_no_overflow_full is UNCONDITIONAL since the internal type was repaired in /repo (6e3a361, D3b): every cast, product and sum of the emitted address arithmetic is exact in the internal type (C13_steps_product_ok_holds, C13_index_casts_exact, C13_internal_type_covers_method_literals), C13_pass_order_from_source; six historical witnesses of the repaired defects (D3, D3b, D4, D4b, D4c, D3c) about the pre-repair models; no open finding; tie = trees whose extreme instance sits at type.min/max + {-2..2} (blocks, repeats, refs with/without overrides, block refs, i64 extremes) through the real generator vs model and spec on the real MIR, corpus of the nine witnesses with written-down expectations, refs respelled in every spelling that normalises to the declared name, the type the emitted block structs declare for base_address vs the model's internal type on every accepted definition, compiled drivers in debug and release for every instance of accepted definitions.",
          "Full for the property as stated; the literal positions of the ROOT read_all_registers (typed in the register address type, not the internal type) are D22, a C19 finding. " + TB, "5 C13"),
